@@ -4,9 +4,27 @@ import schedcheck
 PROPS = ["Props/C10.v"]
 
 
+def with_scenarios(ctx):
+    """trees with a second and third scenario whose efforts differ: the children of a container then begin and end at
+    other times than in the first scenario, and the container must follow them in every scenario"""
+    import gens
+    import projects
+    out = []
+    for ap in gens.family(ctx, "trees", ctx.n(60, 500)) + gens.family(ctx, "deps", ctx.n(20, 200)):
+        ap["scenario_lines"] = [ctx.rng.choice(['scenario plan "plan" { scenario s1 "s1" }',
+                                                'scenario plan "plan" { scenario s1 "s1" scenario s2 "s2" }'])]
+        for _, n in projects.walk(ap["tasks"]):
+            if "kids" not in n and n.get("effort") and ctx.rng.random() < 0.5:
+                n.setdefault("sc_attrs", []).append(("s1", "effort", n["effort"] + ctx.rng.choice([120, 480, 960])))
+        ap["_family"] = "scen" + ap["_family"]
+        out.append(ap)
+    return out
+
+
 def run(ctx):
     schedcheck.run(ctx, "C10", PROPS,
                    [("trees", 200, 2000), ("mstrees", 80, 800), ("deps", 60, 600), ("coredeps", 60, 500), ("alap", 40, 300), ("alapcore", 60, 500), ("wintrees", 100, 800)],
                    ["c10", "c01"],
-                   ["checked for scenario 0 here; other scenarios are covered by C16"],
-                   "corpus first; random task trees of depth <= 4 with unschedulable leaves (resource on permanent leave), milestones with own dates, dated containers, containers with a start and an end of their own above unschedulable leaves, dependencies on containers")
+                   ["every scenario of the multi-scenario projects is checked; scenario independence itself is C16"],
+                   "corpus first; random task trees of depth <= 4 with unschedulable leaves (resource on permanent leave), milestones with own dates, dated containers, containers with a start and an end of their own above unschedulable leaves, dependencies on containers; trees with two and three scenarios of differing efforts, every scenario checked",
+                   extra_cases=with_scenarios, all_scenarios=True)
